@@ -186,7 +186,21 @@ def substitute_random(rng):
               'input(a,b,c) output(z) z=BUF1(a)',                                      # inputs nobody reads
               'input(a) output(y,z) y=INV1(a) z=BUF1(a)',                              # input with several readers
               'input(a,b) output(z) t=AND2(a,b) u=OR2(a,b) z=XOR2(t,u)']
-    txt = rng.choice(shapes)
+    shapes += ['input(a,b,c) output(z) z=AO22(a,b,a,c)',                               # one input on two pins of the same gate
+               'input(a,b) output(y,z) y=AND2(a,a) z=OR3(a,b,a)']
+    if rng.random() < 0.6:
+        # random implementation: operands drawn with replacement (same signal on several pins, fan-out, unread inputs)
+        ni, ng = rng.randint(1, 4), rng.randint(1, 4)
+        sigs = [f'i{k}' for k in range(ni)]
+        gates = []
+        for g in range(ng):
+            kind, ar = rng.choice([('AND2', 2), ('OR2', 2), ('XOR2', 2), ('NAND3', 3), ('AO21', 3), ('AO22', 4), ('MUX21', 3), ('INV1', 1), ('NOR4', 4)])
+            gates.append(f'g{g}={kind}(' + ','.join(rng.choice(sigs) for _ in range(ar)) + ')')
+            sigs.append(f'g{g}')
+        outs = rng.sample([f'g{g}' for g in range(ng)], rng.randint(1, min(3, ng)))
+        txt = f'input({",".join(f"i{k}" for k in range(ni))}) output({",".join(outs)}) ' + ' '.join(gates)
+    else:
+        txt = rng.choice(shapes)
     impl = bench.parse(txt)
     impl.eliminate_1to1_forks()
     ins = [n for n in impl.io_nodes if len(n.ins) == 0]
